@@ -58,7 +58,7 @@ def floors(tier):
     return {"distinct_nontrivial": 400, "cls:quant:an": 400, "cls:quant:the": 300, "cls:quant:infer": 300,
             "cls:head": 500, "cls:tag:fpred": 300, "cls:tag:cpred": 300, "cls:tag:hastype": 100, "predicate_calls": 5000,
             "cls:ambient_changes_between_results": 300, "cls:query_as_domain": 100, "cls:predicate_that_runs_a_query_of_its_own": 300,
-            "cls:operand_is_an_independent_subquery": 300}
+            "cls:operand_is_an_independent_subquery": 300, "cls:result_iterator_closed_under_ambient_mode": 200}
 
 
 def _has_pred(c):
@@ -79,7 +79,12 @@ def cases(spec, ctx):
             cond = ["and", cond, ["fpred", "f_gt", [["v", 0, []], ["lit", 1]]]]
         if rng.random() < 0.2:
             # a predicate that builds and evaluates a query of its own during the evaluation
-            cond = [rng.choice(["and", "or"]), cond, ["fpred", "f_inner", [["v", rng.randrange(nv), []], ["lit", rng.randint(0, 2)]]]]
+            # (half of them through a generator that is closed while it is suspended inside its own symbolic block; the predicate
+            #  comes first so that the rest of the row is computed after it)
+            if rng.random() < 0.5:
+                cond = [rng.choice(["and", "or"]), cond, ["fpred", "f_inner", [["v", rng.randrange(nv), []], ["lit", rng.randint(0, 2)]]]]
+            else:
+                cond = [rng.choice(["and", "or"]), ["fpred", "f_inner_gen", [["v", rng.randrange(nv), []], ["lit", rng.randint(0, 2)]]], cond]
         quant = rng.choice(["an", "an", "the", "the", "infer", "infer"])
         head = quant == "infer" or rng.random() < 0.3
         k_expr = rng.choice([["lit", 5], ["v", 0, [["a", "a"]]], ["v", nv - 1, [["a", "b"]]]])
@@ -219,6 +224,38 @@ def run(case, world, mode):
         enable_caching()
 
 
+def _registered_heads():
+    """how many V instances a query over a variable without a domain finds (the public view of the instance registry)"""
+    from entity_query_language import symbolic_mode, an, entity, let
+    with symbolic_mode():
+        q = an(entity(let(V)))
+    return sum(1 for _ in q.evaluate())
+
+
+def check_close_under_ambient(case, world, ctx):
+    """an infer(...) iterator is read for ONE instance and then closed while the ambient mode is none / query / rule: what
+    exists afterwards (as a later query over the registry sees it) does not depend on where the iterator was closed"""
+    from entity_query_language import infer, entity
+    from entity_query_language.symbolic import rule_mode
+    ctx.cls("cls:result_iterator_closed_under_ambient_mode")
+    deltas = {}
+    doms = H.domains(world, case["kinds"])
+    C.CUR_WORLD = world
+    for mode in MODES:
+        with rule_mode():
+            xs = H.declare(case["kinds"], doms)
+            q = infer(entity(V(b=xs[0], k=C.bval(case["k_expr"], xs), c=xs[-1]), C.build(case["cond"], xs, 0, False)))
+        before = _registered_heads()
+        it = q.evaluate()
+        first = next(it, None)
+        with _ambient(mode):
+            it.close()
+        deltas[mode] = [_registered_heads() - before, type(first).__name__]
+        del first
+    if len({str(v) for v in deltas.values()}) != 1:
+        ctx.fail("CLOSE_UNDER_AMBIENT_MODE", {"new_instances_visible_after_closing_under": deltas})
+
+
 def check_case(case, ctx):
     world = D.build_world(case["world"])
     exp = expected(case, world)
@@ -234,6 +271,8 @@ def check_case(case, ctx):
     for t in C.shape_tags(case["cond"]):
         if t in ("fpred", "cpred", "hastype"):
             ctx.cls("cls:tag:" + t)
+    if "f_inner_gen" in repr(case["cond"]):
+        ctx.cls("cls:predicate_that_leaves_a_generator_suspended_in_its_own_block")
     if "f_inner" in repr(case["cond"]):
         ctx.cls("cls:predicate_that_runs_a_query_of_its_own")
     if case["quant"] == "the":
@@ -242,6 +281,12 @@ def check_case(case, ctx):
         want = ["rows", exp]
     if exp:
         ctx.nontrivial()
+    if case["quant"] == "infer" and case["head"] and len(exp) >= 2 and not case.get("subquery_operands") and "f_inner" not in repr(case["cond"]):
+        try:
+            check_close_under_ambient(case, world, ctx)
+        except Exception as e:
+            import traceback
+            ctx.fail("EXC", f"close_under_ambient: {type(e).__name__}: {e}\n{traceback.format_exc()[-600:]}")
     outs, calls = {}, {}
     modes = MODES + MODES_WITH_QUERY
     for mode in modes:
